@@ -5,6 +5,7 @@ package main
 // so that no array theory and no quantifier reaches the solver.
 
 import (
+	"os"
 	"fmt"
 	"math/big"
 	"strings"
@@ -28,8 +29,13 @@ const (
 // writeLog, when set, records the region of every write to a two-key memory.
 var writeLog func(name string, region *Term)
 
+var readCalls, readIters, readHits, readDepth, readTop, spawnIte, spawnCopy, spawnMerge int
+var readKinds = map[MemKind]int{}
+
+var noMergeRestrict = os.Getenv("GOVC_NO_MERGE_RESTRICT") != ""
+
 func logWrite(m *Mem, region *Term) {
-	if writeLog != nil && (len(m.ksort) == 2 || len(m.ksort) == 1) {
+	if writeLog != nil && (len(m.ksort) == 2 || len(m.ksort) == 1 || strings.HasPrefix(m.name, "map:")) {
 		writeLog(m.name, region)
 	}
 }
@@ -59,6 +65,41 @@ type Mem struct {
 	regions []*Term
 
 	cache map[string]*Term
+	skip  map[int]*Mem // region term id -> nearest ancestor-or-self that may hold cells of that region
+}
+
+// skipFor: the nearest node of the chain (this one included) that may affect cells of region r;
+// nodes that write a syntactically different region are passed over. Memoised per region.
+func (m *Mem) skipFor(r *Term) *Mem {
+	var path []*Mem
+	cur := m
+	for cur != nil {
+		if s, ok := cur.skip[r.id]; ok {
+			cur = s
+			break
+		}
+		var nr *Term
+		switch cur.kind {
+		case MWrite:
+			if len(cur.keys) == 2 {
+				nr = cur.keys[0]
+			}
+		case MCopy, MFill, MHavoc:
+			nr = cur.region
+		}
+		if nr == nil || EqOff(r, nr) != False {
+			break
+		}
+		path = append(path, cur)
+		cur = cur.prev
+	}
+	for _, p := range path {
+		if p.skip == nil {
+			p.skip = map[int]*Mem{}
+		}
+		p.skip[r.id] = cur
+	}
+	return cur
 }
 
 var memNext int
@@ -213,8 +254,9 @@ func (m *Mem) Read(keys []*Term) *Term {
 	// so that every branch is resolved against the chain syntactically
 	if len(keys) == 2 && keys[0].op == "ite" && iteDepth(keys[0]) <= 3 {
 		k := keys[0]
-		a := m.Read([]*Term{k.args[1], keys[1]})
-		b := m.Read([]*Term{k.args[2], keys[1]})
+		spawnIte++
+		a := m.Read([]*Term{k.args[1], restrictTerm(keys[1], k.args[0], true)})
+		b := m.Read([]*Term{k.args[2], restrictTerm(keys[1], k.args[0], false)})
 		return Ite(k.args[0], a, b)
 	}
 	// iterative descent over the prev chain to avoid deep recursion
@@ -227,11 +269,23 @@ func (m *Mem) Read(keys []*Term) *Term {
 	var stack []pend
 	cur := m
 	var tail *Term
+	readCalls++
+	readDepth++
+	if readDepth == 1 {
+		readTop++
+	}
+	defer func() { readDepth-- }()
 	for {
+		readIters++
+		if len(keys) == 2 {
+			cur = cur.skipFor(keys[0])
+		}
 		if r, ok := cur.cache[ks]; ok {
 			tail = r
+			readHits++
 			break
 		}
+		readKinds[cur.kind]++
 		switch cur.kind {
 		case MBase:
 			tail = UF(cur.uf, cur.sort, keys...)
@@ -241,6 +295,9 @@ func (m *Mem) Read(keys []*Term) *Term {
 			if c == True {
 				tail = cur.val
 				cur.cache[ks] = tail
+			} else if c == False {
+				cur = cur.prev
+				continue
 			} else {
 				stack = append(stack, pend{cur, c, cur.val})
 				cur = cur.prev
@@ -253,6 +310,7 @@ func (m *Mem) Read(keys []*Term) *Term {
 				cur = cur.prev
 				continue
 			}
+			spawnCopy++
 			v := cur.src.Read([]*Term{cur.srcRegion, BVAdd(cur.srcOff, BVSub(keys[1], cur.dst))})
 			stack = append(stack, pend{cur, inR, v})
 			cur = cur.prev
@@ -302,7 +360,15 @@ func (m *Mem) Read(keys []*Term) *Term {
 			cur = cur.prev
 			continue
 		case MMerge:
-			tail = Ite(cur.cond, cur.a.Read(keys), cur.b.Read(keys))
+			// under the merge condition the keys themselves simplify: ite(c, x, y) is x on the
+			// then-side and y on the else-side (keeps address terms syntactic, which the
+			// quantifier instantiation matches on)
+			spawnMerge++
+			if noMergeRestrict {
+				tail = Ite(cur.cond, cur.a.Read(keys), cur.b.Read(keys))
+			} else {
+				tail = Ite(cur.cond, cur.a.Read(restrictTerms(keys, cur.cond, true)), cur.b.Read(restrictTerms(keys, cur.cond, false)))
+			}
 			cur.cache[ks] = tail
 		}
 		break
@@ -677,3 +743,62 @@ func callAllocOrNil(t *Term) bool {
 
 // callAllocVars: region variables assumed (and checked inductively) to be nil or call-allocated.
 var callAllocVars = map[int]bool{}
+
+
+// restrictTerms simplifies small terms under the assumption that c has the given truth value:
+// every ite(c, x, y) inside them becomes x (or y). Large terms are left alone.
+func restrictTerms(ts []*Term, c *Term, val bool) []*Term {
+	out := ts
+	for i, t := range ts {
+		r := restrictTerm(t, c, val)
+		if r != t {
+			if &out[0] == &ts[0] {
+				out = append([]*Term(nil), ts...)
+			}
+			out[i] = r
+		}
+	}
+	return out
+}
+
+func restrictTerm(t *Term, c *Term, val bool) *Term {
+	budget := 200
+	memo := map[int]*Term{}
+	var rec func(t *Term, depth int) *Term
+	rec = func(t *Term, depth int) *Term {
+		if r, ok := memo[t.id]; ok {
+			return r
+		}
+		if budget <= 0 || depth > 12 || len(t.args) == 0 {
+			return t
+		}
+		budget--
+		var r *Term
+		if t.op == "ite" && len(t.args) == 3 && t.args[0] == c {
+			if val {
+				r = rec(t.args[1], depth+1)
+			} else {
+				r = rec(t.args[2], depth+1)
+			}
+		} else if t.op == "uf" || t.op == "select" {
+			r = t // memory reads: leave their insides alone
+		} else {
+			changed := false
+			na := make([]*Term, len(t.args))
+			for i, a := range t.args {
+				na[i] = rec(a, depth+1)
+				if na[i] != a {
+					changed = true
+				}
+			}
+			if changed {
+				r = rebuild(t, na)
+			} else {
+				r = t
+			}
+		}
+		memo[t.id] = r
+		return r
+	}
+	return rec(t, 0)
+}
